@@ -5,7 +5,7 @@ from .. import proofgate
 
 THEOREMS = ["C19_fft_rec_is_dft", "C19_domain_roots", "C19_fft_is_evaluation", "C19_coset_fft_is_evaluation",
             "C19_ifft_is_scaled_dft", "C19_parallel_butterfly_serial", "C19_poly_ops", "C19_ruffini", "C19_fft_rec_inverse", "C19_ifft_fft", "C19_fft_ifft",
-            "C19_vanishing_iff_domain", "C19_lagrange_is_interpolant", "C19_barycentric_is_interpolant", "C19_batch_inversion_montgomery"]
+            "C19_vanishing_iff_domain", "C19_vanishing_over_coset", "C19_lagrange_is_interpolant", "C19_barycentric_is_interpolant", "C19_batch_inversion_montgomery"]
 
 W32 = 0x16a2a19edfe81f20d09b681922c813b4b63683508c2280b93829971f439f0d2b
 
@@ -38,6 +38,13 @@ def gen_cases(ck, rng, quick):
         for t in (range(1, 18) if not quick else [1, 2, 3, 4, 5, 6, 7, 9, 12, 13, 16, 17]):
             for kind in ([0, 3] if quick else range(4)):
                 add(f"K pool{lg}_{t}_{kind} fft {kind} {n} {t} " + " ".join(hx(x) for x in v), "fft pools at 2^%d" % lg)
+    # the prover's shapes: blinded polynomials of n+2 / n+3 / n+6 coefficients (n >= 2^13, beyond every parallel threshold)
+    # shifted onto the coset of a larger domain, under pools whose size does not divide the length
+    for (lgn, lgd) in ([(13, 14)] if quick else [(13, 14), (13, 16), (14, 15)]):
+        n = 1 << lgn
+        for extra, t in ([(2, 3), (3, 16), (6, 5)] if quick else [(2, 3), (3, 16), (6, 5), (2, 7), (3, 2), (1, 13), (0, 6)]):
+            v = vec(rng, n + extra, "random")
+            add(f"K big{lgn}_{lgd}_{extra}_{t} fft 2 {1 << lgd} {t} " + " ".join(hx(x) for x in v), "coset fft of blinded-length vectors at 2^%d" % lgd)
     # polynomial arithmetic
     for i in range(60 if quick else 600):
         la, lb = rng.randrange(0, 40), rng.randrange(0, 40)
@@ -59,6 +66,10 @@ def gen_cases(ck, rng, quick):
             add(f"K va{lg}_{j} vanish {n} {hx(p)}", "vanishing")
             ev = vec(rng, n, rng.choice(["random", "sparse", "zeros"]))
             add(f"K ba{lg}_{j} bary {n} {hx(p)} " + " ".join(hx(x) for x in ev), "barycentric")
+        # X^d - 1 over the coset for EVERY degree below the domain size (small domains) / a sample (large)
+        degs = list(range(n)) if n <= 16 else sorted(set([0, 1, 2, 3, 5, n // 2, n // 2 + 1, n - 3, n - 1] + [rng.randrange(n) for _ in range(6)] + [1 << j for j in range(lg)]))
+        for d in degs:
+            add(f"K vc{lg}_{d} vcos {n} {d}", "vanishing over coset")
         add(f"K d{lg} dom {n}", "domain")
         if n > 1: add(f"K dm{lg} dom {n - 1}", "domain")
     return L
@@ -90,7 +101,7 @@ def run(ck):
         ck.violation(f"kernel output differs from its definition on {len(bad)} cases; first: {nm}: {' '.join(line.split()[2:6])} ...: position {first}: impl={a[first] if first is not None else a} definition={b[first] if first is not None else b}",
                      {"failing_input_found": True, "case": line, "impl": a, "model": b}, key="kernel:" + line.split()[2])
     return ck.finish(level="proof",
-        rule="all domain sizes 2^0..2^10 (thorough 2^14) x input lengths {n-1, n, n+1, n/2, 1.5n+1, 1} x {random, trailing zeros, all zero, boundary} x 4 transforms, random pool size from {1,2,3,4,5,8,16,17}; 2^12 under pools 1..17; polynomial add/sub/mul/scale/ruffini/eval on random/sparse/zero operands; batch inversion with zeros; Lagrange/vanishing/barycentric at points inside and outside the domain",
+        rule="all domain sizes 2^0..2^10 (thorough 2^14) x input lengths {n-1, n, n+1, n/2, 1.5n+1, 1} x {random, trailing zeros, all zero, boundary} x 4 transforms, random pool size from {1,2,3,4,5,8,16,17}; 2^12 under pools 1..17; coset FFT of vectors of 2^13+{2,3,6} coefficients on 2^14 under pools {3,16,5} (the prover's blinded shapes); polynomial add/sub/mul/scale/ruffini/eval on random/sparse/zero operands; batch inversion with zeros; Lagrange/vanishing/barycentric at points inside and outside the domain; X^d-1 over the coset for every degree d < size (sizes <= 16) and sampled degrees incl. non-powers of two (larger sizes)",
         assumptions=["PrimeR (prime r) for inverses", "rayon's par_chunks_mut/zip/for_each on disjoint chunks = sequential meaning (thread model is not mechanised; pools are exercised by the run)",
                      "ifft of a vector longer than the domain interpolates its first n entries (the model does the same)"],
         checker_cmd=proofgate.CHECKER_CMD, trusted_base=proofgate.TRUSTED)
